@@ -313,6 +313,51 @@ def explore_sync(depth):
     return res
 
 
+# ---------------------------------------------------------------------------------------------
+# part C: a clock that is never started, float speeds, and times that a float cannot hold (a nanosecond timestamp):
+# assignments are exact, a lower value is refused, changing the speed of a stopped clock does not move it
+BIG = 2 ** 60 + 1
+BIG_OPS = [('speed', 0.5), ('speed', 2.0), ('speed', 1), ('set', BIG), ('set', 1), ('set', 0), ('set', -1), ('stop',)]
+BIG_DEPTH = 5
+
+
+def explore_big():
+    import itertools as _it
+    res = {'states': 0, 'transitions': 0, 'outcomes': collections.Counter(), 'violations': [], 'nviol': 0,
+           'values': 0, 'max_depth': BIG_DEPTH}
+    for seq in _it.product(BIG_OPS, repeat=BIG_DEPTH):
+        REAL[0] = 0
+        clk = SimulatedClock()
+        v = 0
+        for i, op in enumerate(seq):
+            exp = None
+            try:
+                if op[0] == 'speed':
+                    clk.speed = op[1]
+                elif op[0] == 'stop':
+                    clk.stop()
+                else:
+                    if op[1] < 0:
+                        exp = ValueError
+                    else:
+                        v = v + op[1]
+                    clk.time = (v + op[1]) if op[1] < 0 else v
+                got = None
+            except ValueError:
+                got = ValueError
+            res['transitions'] += 1
+            if got is not exp or clk.time != v or (clk.time - v) != 0:
+                res['nviol'] += 1
+                if len(res['violations']) < 5:
+                    res['violations'].append({'hist': [list(map(str, o)) for o in seq[:i]], 'op': list(map(str, op)),
+                                              'part': 'big', 'detail': 'stopped clock: expected %s and time %d, got %s and '
+                                              'time %r' % (getattr(exp, '__name__', None), v, getattr(got, '__name__', None), clk.time)})
+                break
+    res['states'] = len(BIG_OPS) ** BIG_DEPTH
+    res['outcomes']['big-int sequences'] = res['states']
+    return res
+
+
 def work(task):
     prefix, depth = task
     return explore(prefix, depth)
@@ -329,6 +374,7 @@ def run(tier, seed):
     clockmod.time = lambda: REAL[0]
     sync['values'] = 0
     results.append(sync)
+    results.append(explore_big())
     agg = harness.Agg()
     viols = []
     nvalues = 0
@@ -364,6 +410,10 @@ def run(tier, seed):
 
 
 def replay(data):
+    if data.get('part') == 'big':
+        print(data)
+        print(explore_big()['violations'][:2])
+        return 0
     if data.get('part') == 'sync':
         clockmod.time = _time.time
         conv = lambda o: (o[0], int(o[1])) if o[0] == 'adv' else tuple(o)
